@@ -104,7 +104,7 @@ pub fn c04(seed: u64, n: usize) {
         emit_h_dist("C04", "h/dist", &a, &b);
     }
     for _ in 0..n {
-        let qy = gen_query(&mut r, true, false, true);
+        let qy = gen_query(&mut r, true, true, true);
         let o = qy.origin.as_ref();
         let (pf, prev) = gen_prev(&mut r, o);
         let fam = format!("{}/prev-{}", qy.fam, pf);
